@@ -411,8 +411,32 @@ class C19(Property):
     id = "C19"
     title = "markup options resolve tag > block > generator > default and unwind on end()"
     proof_module = "Proofs.C19"
-    theorems = []
-    generated_obligations = []
+    theorems = [
+        "Flatland.C19.Proofs.toggle_resolution",
+        "Flatland.C19.Proofs.C19_full_fails",
+        "Flatland.C19.Proofs.matches_run",
+        "Flatland.C19.Proofs.popToggle_forced",
+        "Flatland.C19.Proofs.popToggle_off",
+        "Flatland.C19.Proofs.forced_name",
+        "Flatland.C19.Proofs.forced_value",
+        "Flatland.C19.Proofs.forced_domid",
+        "Flatland.C19.Proofs.options_never_emitted",
+        "Flatland.C19.Proofs.options_never_rendered",
+        "Flatland.C19.Proofs.end_restores",
+        "Flatland.C19.Proofs.begin_unknown_rejected",
+        "Flatland.C19.Proofs.set_unknown_rejected",
+        "Flatland.C19.Proofs.update_unknown_rejected",
+        "Flatland.C19.Proofs.setItem_unknown_rejected",
+        "Flatland.C19.Proofs.unbalanced_end_raises",
+        "Flatland.C19.Proofs.init_depth",
+        "Flatland.C19.Proofs.tabindex_increasing",
+    ]
+    generated_obligations = ["Flatland.C19.Proofs.defaults_ok"]
+    level_text = "proof"
+    level_note = ("partial: the resolution theorem needs NoShadowingAuto (KF-C19-a; the unrestricted statement is refuted by "
+                  "C19_full_fails); filters and the per-tag 'applies' table of the value transform rest on correspondence")
+    technique = ("invariant (flat-copied frames = levels replayed) by induction over histories; decision-table resolver; "
+                 "tables YES/NO/MAYBE, _default_context, _auto_tags regenerated from the source")
     trusted_base = [
         "filters (auto_filter / filters=) are not modelled beyond consuming the option; markup_wrapper is always Markup",
         "str.lower() replaced by ASCII lower-casing for YES/NO/MAYBE lookups (equivalence checked by the extractor over all code points)",
